@@ -305,10 +305,14 @@ def job_cross(spec):
         e = (a == b) if isinstance(a, (B.BStr, B.Rope)) else (b == a)
         return e.e if hasattr(e, "e") else z3.BoolVal(bool(e))
 
-    if mode == "pdb-cif-pdb":
+    subset = mode == "pdb-subset-cif-pdb"
+    if mode in ("pdb-cif-pdb", "pdb-subset-cif-pdb"):
         ch = "  " if charge is None else charge.rjust(2)
         lines = [P.model_line(eng, P.trim(mb, 4)) + "\n",
                  P.atom_line(eng, f, P.fmt83(x), P.fmt83(y), P.fmt83(z), occ=P.fmt62(occ), b=P.fmt62(bf), charge=ch) + "\n", "ENDMDL\n"]
+        if subset:
+            # a concrete first atom that is then dropped by a row selection: the table handed to the writers keeps the row label 1
+            lines.insert(1, "ATOM      6  P     U B   3      91.000  92.000  93.000  0.50 11.00           P  \n")
 
         class Reader:
             def seek(self, n):
@@ -319,6 +323,10 @@ def job_cross(spec):
 
         def run():
             df = ns["parse_pdb_atoms"](Reader())
+            if subset:
+                if len(df) != 2:
+                    raise AssertionError(f"parse_pdb_atoms returned {len(df)} rows for two atom lines")
+                df = df.take_rows([1])
             ns["write_cif"](df, os.path.join(tempfile.gettempdir(), "verif_c09_unused.cif"))
             cat = store["written"][0].getObj("atom_site")
             rows = [list(r) for r in cat.getRowList()]
@@ -425,10 +433,14 @@ import io
 from rnapolis.parser_v2 import parse_pdb_atoms, parse_cif_atoms, write_pdb, write_cif
 w = {w!r}
 try:
-    if w["mode"] == "pdb-cif-pdb":
+    if w["mode"] in ("pdb-cif-pdb", "pdb-subset-cif-pdb"):
         text = "".join(w["lines"])
-        df = parse_pdb_atoms(io.StringIO(text)); cif = write_cif(df); df2 = parse_cif_atoms(cif); out = write_pdb(df2)
-        a = [l for l in text.split("\\n") if l.startswith("ATOM")][0]; b = [l for l in out.split("\\n") if l.startswith("ATOM")][0]
+        df = parse_pdb_atoms(io.StringIO(text))
+        if w["mode"] == "pdb-subset-cif-pdb": df = df[df.index >= 1]
+        cif = write_cif(df); df2 = parse_cif_atoms(cif); out = write_pdb(df2)
+        a = [l for l in text.split("\\n") if l.startswith("ATOM")][-1]; b = [l for l in out.split("\\n") if l.startswith("ATOM")]
+        if len(b) != 1: print("atom lines written:", b); sys.exit(1)
+        b = b[0]
         bad = [(lo, hi, a[lo:hi], b[lo:hi]) for lo, hi in ((6, 11), (12, 16), (16, 17), (17, 20), (21, 22), (22, 26), (26, 27), (30, 54), (54, 66), (76, 78), (78, 80))
                if a[lo:hi].strip() != b[lo:hi].strip()]
         if len(b) != 80: bad.append(("length", len(b)))
@@ -461,7 +473,8 @@ def run(rep, tier):
     specs = [("pdb", (1, "plain", 0, False, "std")), ("pdb", (1, "wide", 1, True, "std")), ("pdb", (1, "round", 3, False, "std")),
              ("pdb", (2, "plain", 2, False, "same-residue")),
              ("pdb", (3, "plain", 0, False, "same-residue")),
-             ("cross", ("pdb-cif-pdb", 0)), ("cross", ("pdb-cif-pdb", 1)), ("cross", ("pdb-cif-pdb", 2)), ("cross", ("cif-cif", 0)), ("cross", ("cif-cif", 4))]
+             ("cross", ("pdb-cif-pdb", 0)), ("cross", ("pdb-cif-pdb", 1)), ("cross", ("pdb-cif-pdb", 2)), ("cross", ("cif-cif", 0)), ("cross", ("cif-cif", 4)),
+             ("cross", ("pdb-subset-cif-pdb", 0))]
     if tier != "quick":
         specs += [("pdb", (2, "plain", 0, False, "std")), ("pdb", (1, "plain", 4, False, "std")), ("pdb", (1, "plain", 5, False, "std")), ("pdb", (2, "wide", 0, True, "std")),
                   ("pdb", (3, "plain", 0, False, "std")), ("cross", ("pdb-cif-pdb", 2)), ("cross", ("cif-cif", 3)), ("cross", ("cif-cif", 5))]
@@ -493,7 +506,7 @@ def run(rep, tier):
         rep.sample({"group": r["name"], "paths": r["paths"], "verdicts": [(v["ob"][:80], v["v"]) for v in r["verdicts"][:2]]}, cap=10)
     rep.add(functions_encoded=["parser_v2.parse_pdb_atoms", "parser_v2._format_pdb_atom_line", "parser_v2.write_pdb", "parser_v2.write_cif (row mapping)",
                                "parser_v2.parse_cif_atoms (cell decoding)"],
-            bounds={"atoms": "1-3 ATOM/HETATM records in 1-2 models", "symbolic": "atom name 1-4 chars over [A-Z0-9'*], altLoc, residue name 1-3, chain (1 "
+            bounds={"atoms": "1-3 ATOM/HETATM records in 1-2 models; one job hands the writers a row selection of a parsed table (row label 1 at position 0)", "symbolic": "atom name 1-4 chars over [A-Z0-9'*], altLoc, residue name 1-3, chain (1 "
                     "alphanumeric), residue number -999..9999 (canonical text), insertion code, element 0-2 letters, model numbers 0..9999, "
                     "chain / residue identity shared or not", "tables": {"numbers": list(NUMS), "charges": CHARGES, "serials": SERIALS},
                     "outside": "pandas dtype coercion (to_numeric, categoricals, Int64), the mmcif tokenizer/writer (quoting), float formatting of "
